@@ -1,14 +1,32 @@
 import Oracle.Proto
 import Oracle.Scheduler
 import Oracle.ActorTimers
+import MV.Model.TimerFacts
 /-! Oracle suites of property C08. -/
 namespace Oracle.C08
+
+/-- T-facts: `facts <Func>` / `facts-case processMessage onSchedulerFunc` answer the text the model was
+    transcribed from -/
+def timerFacts : Suite where
+  σ := Unit
+  init := ()
+  step _ toks := match toks with
+    | ["facts", f] => match MV.Model.TimerFacts.table.lookup f with
+      | some s => ((), s)
+      | none => ((), "bad-op")
+    | ["facts-case", "processMessage", "onSchedulerFunc"] => ((), MV.Model.TimerFacts.schedulerFuncCase)
+    | ["facts-task", "close"] => ((), MV.Model.TimerFacts.taskClose)
+    | ["facts-chrono", f] => match MV.Model.TimerFacts.chronoTable.lookup f with
+      | some s => ((), s)
+      | none => ((), "bad-op")
+    | _ => ((), "bad-op")
 
 def suites : List (String × Suite) := [
   ("scheduler", Oracle.Scheduler.model),
   ("scheduler-spec", Oracle.Scheduler.spec),
   ("actor-timers", Oracle.ActorTimers.model),
-  ("actor-timers-spec", Oracle.ActorTimers.spec)
+  ("actor-timers-spec", Oracle.ActorTimers.spec),
+  ("timer-facts", timerFacts)
 ]
 
 end Oracle.C08
